@@ -42,15 +42,15 @@ def hx(x):
     return float(x).hex()
 
 
-def dy(rng, big=24):
-    return Fraction(rng.randint(-big, big), 2 ** rng.randint(0, 3))
+def dy(rng, big=24, maxexp=3):
+    return Fraction(rng.randint(-big, big), 2 ** rng.randint(0, maxexp))
 
 
-def cdy(rng, big=24):
+def cdy(rng, big=24, maxexp=3):
     k = rng.random()
     if k < 0.15:
-        return (dy(rng, big), Fraction(0))
-    return (dy(rng, big), dy(rng, big))
+        return (dy(rng, big, maxexp), Fraction(0))
+    return (dy(rng, big, maxexp), dy(rng, big, maxexp))
 
 
 def cmul(a, b):
@@ -150,8 +150,8 @@ def parse_m_line(line):
 
 
 # ---------------------------------------------------------------------------- generators
-def rand_matrix(rng, r, c, big=24):
-    return [[cdy(rng, big) for _ in range(c)] for _ in range(r)]
+def rand_matrix(rng, r, c, big=24, maxexp=3):
+    return [[cdy(rng, big, maxexp) for _ in range(c)] for _ in range(r)]
 
 
 def scale_rows(m, exps):
@@ -259,14 +259,36 @@ def skeel_cond(A, Ainv, n):
     return worst
 
 
-def first_tie_column(cands):
+def skeel_cond_float(A, n):
+    """|| |A^-1| |A| ||_inf computed in floating point on the row-equilibrated matrix (the value is
+    invariant under row scaling; equilibrating keeps the float inverse meaningful)."""
+    Af = []
+    for row in A:
+        mx = max(cabsf(v) for v in row)
+        e = Fraction(2) ** (-(math.frexp(mx)[1])) if mx > 0 else Fraction(1)
+        Af.append([complex(float(a * e), float(b * e)) for (a, b) in row])
+    G = fgauss_inverse(Af)
+    if G is None:
+        return float("inf")
+    worst = 0.0
+    for i in range(n):
+        s = 0.0
+        for j in range(n):
+            s += sum(abs(G[i][k]) * abs(Af[k][j]) for k in range(n))
+        worst = max(worst, s)
+    return worst
+
+
+def first_tie_column(cands, zero_is_tie=True):
     """index of the first column whose candidate metrics tie or nearly tie (or are all zero);
-    len(cands) when there is none.  cands are the squared metrics of the exact model."""
+    len(cands) when there is none.  cands are the squared metrics of the exact model.
+    A candidate that is exactly zero in the model is rounding noise in binary64 unless the whole
+    row is zero, so (zero_is_tie) a column containing one is not compared either."""
     for j, col in enumerate(cands):
         if len(col) == 1:
             continue
         s = sorted(col, reverse=True)
-        if s[0] == 0:
+        if s[0] == 0 or (zero_is_tie and s[-1] == 0):
             return j
         r = s[1] / s[0]
         if r >= 1 - TIE:
@@ -351,49 +373,86 @@ def run(ctx):
     exe = ctx.build_harness("lu_harness", san=True)
     model_variant = variant or "recip"
 
+    def run_model(mlines, timeout=900):
+        """the extracted model on every line, spread over the cores (output order preserved)."""
+        import subprocess
+        nproc = max(1, min(vplib.NPROC, 12, len(mlines)))
+        order = sorted(range(len(mlines)), key=lambda i: -len(mlines[i]))
+        chunks = [order[k::nproc] for k in range(nproc)]
+        procs = []
+        for ch in chunks:
+            p = subprocess.Popen([drv], stdin=subprocess.PIPE, stdout=subprocess.PIPE, stderr=subprocess.PIPE,
+                                 universal_newlines=True)
+            procs.append((p, ch))
+        import threading
+        outs = [None] * len(procs)
+
+        def feed(k):
+            p, ch = procs[k]
+            try:
+                outs[k] = p.communicate("".join(mlines[i] + "\n" for i in ch), timeout=timeout)
+            except subprocess.TimeoutExpired:
+                p.kill()
+                outs[k] = ("", "[timeout]")
+        ths = [threading.Thread(target=feed, args=(k,)) for k in range(len(procs))]
+        for t in ths:
+            t.start()
+        for t in ths:
+            t.join()
+        res = [None] * len(mlines)
+        for (p, ch), (o, e) in zip(procs, outs):
+            lines = o.strip().split("\n") if o.strip() else []
+            if p.returncode != 0 or len(lines) != len(ch):
+                raise vplib.BuildError("model driver failed: " + (e or "")[-500:])
+            for i, ln in zip(ch, lines):
+                res[i] = ln
+        return res
+
     def run_both(mlines, clines, timeout=900):
-        rc, mout, merr = vplib.sh([drv], input="\n".join(mlines) + "\n", timeout=timeout)
-        if rc != 0:
-            raise vplib.BuildError("model driver failed: " + merr[-500:])
+        ml = run_model(mlines, timeout) if mlines else []
         rc, cout, cerr = vplib.sh([exe], input="\n".join(clines) + "\n", timeout=timeout, env=ctx.run_env())
         if rc != 0:
             sig = vplib.asan_signature(cerr) or {"kind": "fault", "error": "exit %d" % rc, "function": None}
             violation(sig, "lu_harness failed: " + cerr[-300:], {"stderr": cerr[-3000:], "input": clines[:20]})
             return None, None
-        ml = mout.strip().split("\n") if mlines else []
         cl = cout.strip().split("\n")
         return ml, cl
 
-    nfam = 5 if quick else 40
-    kinds = ["random", "random", "graded"] + list(SING_KINDS)
-    cases = []      # dict(kind, variantOf, n, A, B, Brd, tag)
+    nfam = 4 if quick else 24
+    kinds = ["random", "graded"] + list(SING_KINDS)
+    cases = []      # dict(kind, rel, n, A, B, Brd, base, full)
     for n in range(1, 9):
         for kind in kinds:
             reps = nfam if kind == "random" else max(1, nfam // 2)
             if n == 1 and kind in ("rankdef", "dup_row", "graded"):
                 continue
-            if n >= 7 and not quick:
+            if n >= 6:
+                reps = max(1, reps // 2)
+            if n >= 8:
                 reps = max(1, reps // 2)
             for r in range(reps):
                 A, B, Brd = gen_square_family(rng, n, kind)
                 base = len(cases)
-                cases.append(dict(kind=kind, rel="base", n=n, A=A, B=B, Brd=Brd, base=base))
+                # the exact model is slow for n >= 6 (Coq binary integers): all four routines on the base
+                # matrix of the first family of each kind, lu + mldivide on the rest
+                full = n <= 5 or r == 0
+                cases.append(dict(kind=kind, rel="base", n=n, A=A, B=B, Brd=Brd, base=base, full=full))
                 if kind in SING_KINDS and r % 2 == 1:
                     continue
                 # row-permuted copy
                 perm = list(range(n))
                 rng.shuffle(perm)
                 cases.append(dict(kind=kind, rel="perm", n=n, A=perm_rows(A, perm), B=perm_rows(B, perm),
-                                  Brd=Brd, base=base, perm=perm))
+                                  Brd=Brd, base=base, perm=perm, full=n <= 5))
                 # badly row-scaled copy (exact powers of two)
                 exps = [rng.choice([-27, -20, -9, -3, 0, 0, 4, 11, 19, 27]) for _ in range(n)]
                 cases.append(dict(kind=kind, rel="scaled", n=n, A=scale_rows(A, exps), B=scale_rows(B, exps),
-                                  Brd=Brd, base=base, exps=exps))
+                                  Brd=Brd, base=base, exps=exps, full=n <= 5))
     # directed cases: the D25 examples
     p27 = Fraction(2) ** 27
     d25 = [[(1 / p27, Fraction(0)), (p27, Fraction(0))], [(Fraction(1), Fraction(0)), (Fraction(1), Fraction(0))]]
     cases.append(dict(kind="directed", rel="base", n=2, A=d25, B=[[(Fraction(1), Fraction(0))], [(Fraction(2), Fraction(0))]],
-                      Brd=[[(Fraction(1), Fraction(0)), (Fraction(3), Fraction(0))]], base=len(cases)))
+                      Brd=[[(Fraction(1), Fraction(0)), (Fraction(3), Fraction(0))]], base=len(cases), full=True))
     for c in cases:
         assert exact_in_double(c["A"]) and exact_in_double(c["B"]) and exact_in_double(c["Brd"])
 
@@ -402,10 +461,12 @@ def run(ctx):
         n, A, B, Brd = c["n"], c["A"], c["B"], c["Brd"]
         nb = len(B[0])
         mb = len(Brd)
+        c["mline"] = len(mlines)
         mlines.append("lu %s %d %s" % (model_variant, n, mat_str(A, fs)))
         mlines.append("mldivide %s %d %d %s %s" % (model_variant, n, nb, mat_str(A, fs), mat_str(B, fs)))
-        mlines.append("mrdivide %s %d %d %s %s" % (model_variant, mb, n, mat_str(Brd, fs), mat_str(A, fs)))
-        mlines.append("minverse %s %d %s" % (model_variant, n, mat_str(A, fs)))
+        if c["full"]:
+            mlines.append("mrdivide %s %d %d %s %s" % (model_variant, mb, n, mat_str(Brd, fs), mat_str(A, fs)))
+            mlines.append("minverse %s %d %s" % (model_variant, n, mat_str(A, fs)))
         clines.append("lu %d %s" % (n, mat_str(A, hx)))
         clines.append("mldivide %d %d %s %s" % (n, nb, mat_str(A, hx), mat_str(B, hx)))
         clines.append("mrdivide %d %d %s %s" % (mb, n, mat_str(Brd, hx), mat_str(A, hx)))
@@ -425,15 +486,17 @@ def run(ctx):
     for idx, c in enumerate(cases):
         n, A, B, Brd = c["n"], c["A"], c["B"], c["Brd"]
         nb, mb = len(B[0]), len(Brd)
-        m_lu, m_ml, m_mr, m_mi = (parse_m_line(x) for x in ml[4 * idx:4 * idx + 4])
+        k0 = c["mline"]
+        m_lu, m_ml = parse_m_line(ml[k0]), parse_m_line(ml[k0 + 1])
+        m_mr, m_mi = (parse_m_line(ml[k0 + 2]), parse_m_line(ml[k0 + 3])) if c["full"] else (None, None)
         c_lu, c_ml, c_mr, c_mi, c_zy = (parse_c_line(x) for x in cl[5 * idx:5 * idx + 5])
         results.append((m_lu, m_ml, m_mr, m_mi, c_lu, c_ml, c_mr, c_mi))
-        ctx.count(None, 4)
+        ctx.count(None, 4 if c["full"] else 2)
         singular = (m_lu["det"] == (0, 0))
         if (c["kind"] in SING_KINDS) != singular and c["kind"] != "directed":
             if c["kind"] in SING_KINDS:
                 raise vplib.BuildError("generator: %s input is not singular in the model" % c["kind"])
-        tie = first_tie_column(m_lu["cands"])
+        tie = first_tie_column(m_lu["cands"], zero_is_tie=(c["kind"] != "zero_row"))
         c["tie"] = tie
         c["singular"] = singular
         # (a) pivot sequence
@@ -468,17 +531,20 @@ def run(ctx):
                     sing_bad.append((idx, name, (cres["det"], big)))
                 else:
                     ctx.count(("sing", name, idx), 0)
-            if c_lu["det"] != (0.0, 0.0) and c["kind"] in ("zero_row", "zero_col"):
+            if c_lu["det"] != (0.0, 0.0) and finite(c_lu["det"]) and c["kind"] in ("zero_row", "zero_col"):
                 sing_bad.append((idx, "lu: missing row/column but determinant %r" % (c_lu["det"],), None))
             continue
         # nonsingular: (b) backward and forward error, determinant
-        Ainv = m_mi["x"]
-        cond = skeel_cond(A, Ainv, n)
+        # Skeel condition number (invariant under row scaling) from a floating-point inverse of the
+        # row-equilibrated matrix; only used to classify the input
+        cond = skeel_cond_float(A, n)
         well = cond <= 1e6
         stats["wellcond" if well else "illcond"] += 1
         bound = BERR_C * n * EPS
         for name, cres, mres in (("mldivide", c_ml, m_ml), ("mrdivide", c_mr, m_mr), ("minverse", c_mi, m_mi)):
             xs = cres["x"]
+            if mres is None and not well:
+                continue
             if not all(finite(v) for v in xs):
                 be = float("inf")
             elif name == "mldivide":
@@ -489,6 +555,11 @@ def run(ctx):
                 ident = [[(Fraction(1 if i == j else 0), Fraction(0)) for j in range(n)] for i in range(n)]
                 be = ax_minus_b_rows(A, to_fr(xs), ident, n, n)
             hist_add(hist_be, be)
+            if mres is None:
+                # routine not run on the model for this input: only the backward error speaks
+                if well and not be <= bound:
+                    be_bad.append((idx, name, be, bound, cond))
+                continue
             xm = mres["x"]
             xmax = max(cabsf(v) for v in xm) or 1.0
             fe = max(cabsf((Fraction(a) - u, Fraction(b) - w)) if finite((a, b)) else float("inf")
@@ -509,7 +580,7 @@ def run(ctx):
             ctx.sample({"n": n, "kind": c["kind"], "rel": c["rel"], "model_pivots": m_lu["piv"], "c_pivots": c_lu["piv"],
                         "first_tie_column": tie, "skeel_cond": cond,
                         "model_det": [float(m_lu["det"][0]), float(m_lu["det"][1])], "c_det": list(c_lu["det"])})
-    ctx.traces_validated += 4 * len(cases)
+    ctx.traces_validated += len(mlines)
 
     # (e) invariance under row permutation and power-of-two row scaling, on the real code
     for idx, c in enumerate(cases):
@@ -716,10 +787,15 @@ def ls_check(ctx, drv, exe, run_both, violation, quick):
     cases = []
     for (m, n) in shapes:
         for kind in ("inconsistent", "consistent"):
-            A = rand_matrix(rng, m, n, 12)
-            o = rng.randint(1, 2) if n < 10 else 1
+            # the exact elimination over Q[i] runs on Coq's binary integers: keep the numbers of the
+            # larger systems short (small integers) so that 40 x 15 stays within seconds
+            small = n >= 9
+            if small and kind == "consistent" and quick and n >= 14:
+                continue
+            A = rand_matrix(rng, m, n, 2, 0) if small else rand_matrix(rng, m, n, 12)
+            o = rng.randint(1, 2) if n < 9 else 1
             if kind == "consistent":
-                X0 = rand_matrix(rng, n, o, 6)
+                X0 = rand_matrix(rng, n, o, 3, 0) if small else rand_matrix(rng, n, o, 6)
                 B = [[(Fraction(0), Fraction(0)) for _ in range(o)] for _ in range(m)]
                 for i in range(m):
                     for k in range(o):
@@ -729,7 +805,7 @@ def ls_check(ctx, drv, exe, run_both, violation, quick):
                         B[i][k] = s
             else:
                 X0 = None
-                B = rand_matrix(rng, m, o, 12)
+                B = rand_matrix(rng, m, o, 3, 0) if small else rand_matrix(rng, m, o, 12)
             cases.append(dict(kind=kind, m=m, n=n, o=o, A=A, B=B, X0=X0))
     # rank-deficient tall systems
     for (m, n) in ([(6, 3), (9, 4), (20, 6)] if quick else [(rng.randint(n + 1, 30), n) for n in range(2, 9) for _ in range(3)]):
